@@ -29,8 +29,8 @@ const encFns = (v) => (typeof v === 'function' ? { $fn: v.name } : v === null ||
 const decFns = (v) => (v === null || typeof v !== 'object' ? v : Array.isArray(v) ? v.map(decFns) : typeof v.$fn === 'string' ? G.FNS[v.$fn] : Object.fromEntries(Object.keys(v).map((k) => [k, decFns(v[k])])))
 
 const INITIAL = [
-  { toString: 0, constructor: 'K', f: G.FNS.f1, x: 'X', y: 'Y', c: 1, d: 0, d2: 1, a: { b: 'B' }, n: 't', b: 'BB', list: [{ id: 1, v: 'p' }, { id: 2, v: 'q' }, { id: 3, v: 'r' }, { id: 4, v: 's' }, { id: 5, v: 'u' }], obj: { a: { id: 1, v: 'p' }, b: { id: 2, v: 'q' }, c: { id: 3, v: 'r' } } },
-  { toString: 1, constructor: undefined, x: undefined, y: null, c: 0, d: 1, d2: 0, a: undefined, n: 'u', b: undefined, list: [], obj: {} },
+  { toString: 0, constructor: 'K', f: G.FNS.f1, x: 'X', y: 'Y', c: 1, d: 0, d2: 1, a: { b: 'B' }, xs: 'XS', aa: { b: 'B', bb: 'BB' }, n: 't', b: 'BB', list: [{ id: 1, v: 'p' }, { id: 2, v: 'q' }, { id: 3, v: 'r' }, { id: 4, v: 's' }, { id: 5, v: 'u' }], obj: { a: { id: 1, v: 'p' }, b: { id: 2, v: 'q' }, c: { id: 3, v: 'r' } } },
+  { toString: 1, constructor: undefined, x: undefined, y: null, c: 0, d: 1, d2: 0, a: undefined, xs: undefined, aa: undefined, n: 'u', b: undefined, list: [], obj: {} },
 ]
 const ALT = Object.assign(Object.create(null), {
   toString: [0, 1, undefined],
@@ -44,6 +44,8 @@ const ALT = Object.assign(Object.create(null), {
   n: ['t', 'u', 'b', undefined, ''],
   b: ['BB', 'B3', undefined],
   a: [{ b: 'B' }, { b: 'B2' }, undefined, null, { b: undefined }],
+  xs: ['XS', 'XS2', undefined],
+  aa: [{ b: 'B', bb: 'BB' }, { b: 'B', bb: 'B2' }, { b: 'B3', bb: 'BB' }, undefined],
   obj: [{ a: { id: 1, v: 'p' }, b: { id: 2, v: 'q' }, c: { id: 3, v: 'r' } }, {}, { b: { id: 2, v: 'q' }, a: { id: 1, v: 'p' } }, { a: { id: 1, v: 'p' }, z: { id: 9, v: 'new' }, b: { id: 2, v: 'q' } }, undefined, { a: { id: 2, v: 's' }, b: { id: 2, v: 't' } }, { z: { id: 1, v: 'p' }, b: { id: 2, v: 'q' }, c: { id: 3, v: 'r' } }, { a: { id: 1, v: 'p' }, b: { id: 2, v: 'q' }, y: { id: 3, v: 'r' } }],
   list: [[{ id: 1, v: 'p' }, { id: 2, v: 'q' }, { id: 3, v: 'r' }, { id: 4, v: 's' }, { id: 5, v: 'u' }], [{ id: 1, v: 'p' }, { id: 2, v: 'q' }, { id: 3, v: 'r' }], [], [{ id: 3, v: 'r' }, { id: 1, v: 'p' }], [1, 2], ['', 0], { k: 1, m: 2 }, 'ab', 2, undefined, null, [[1, 2], 'xy'], [{ id: 1, v: 'p' }, { id: 1, v: 'q' }, { id: 3, v: 'r' }], { p: { id: 1, v: 'p' }, q: { id: 2, v: 'q' }, r: { id: 3, v: 'r' }, s: { id: 4, v: 's' }, t: { id: 5, v: 'u' } }],
 })
@@ -73,6 +75,10 @@ function transitions(data, names, reduced, keyed) {
   }
   if (names.has('a') && data.a && typeof data.a === 'object') {
     out.push({ label: 'set a.b (exact path)', ops: [{ path: ['a', 'b'], value: data.a.b === 'B2' ? 'B4' : 'B2' }] })
+  }
+  if (names.has('aa') && data.aa && typeof data.aa === 'object') {
+    out.push({ label: 'set aa.bb (exact path)', ops: [{ path: ['aa', 'bb'], value: data.aa.bb === 'E2' ? 'E4' : 'E2' }] })
+    out.push({ label: 'set aa.b (exact path)', ops: [{ path: ['aa', 'b'], value: data.aa.b === 'E3' ? 'E5' : 'E3' }] })
   }
   if (!reduced && used.length >= 2) {
     // two fields in one update, every pair
